@@ -22,6 +22,8 @@ Section G.
   Notation pexpr := (pexpr tk cl txt num lvl).
   Notation pe0 := (pe0 tk cl).
   Notation assign := (assign tk cl txt).
+  Notation sels_loop := (sels_loop tk cl txt).
+  Notation pvariable := (pvariable tk cl txt).
   Notation fbcall := (fbcall tk cl txt).
   Notation opt_list := (opt_list tk).
   Notation elsif1 := (elsif1 tk cl).
@@ -42,6 +44,12 @@ Section G.
   Notation sp := (sp tk).
   Notation spar := (spar tk).
   Notation spars := (spars tk).
+  Notation ssels := (ssels tk).
+  Notation flatss := (flatss tk).
+  Notation erasess := (erasess tk txt num).
+  Notation sizess := (sizess tk).
+  Notation wfss := (wfss tk cl lvl).
+  Notation nosel := (nosel tk cl).
   Notation flat := (flat tk).
   Notation flatp := (flatp tk).
   Notation flatps := (flatps tk).
@@ -67,7 +75,7 @@ Section G.
   Inductive sby := ByNone | BySome (k : tk) (w1 : list tk) (e : sp) (w2 : list tk).
 
   Inductive ss :=
-    | SsAssign (v : tk) (w1 : list tk) (a : tk) (w2 : list tk) (e : sp)
+    | SsAssign (v : tk) (vs : ssels) (w1 : list tk) (a : tk) (w2 : list tk) (e : sp)
     | SsCall0 (f : tk) (w1 : list tk) (lp : tk) (w2 : list tk) (rp : tk)
     | SsCallN (f : tk) (w1 : list tk) (lp : tk) (w2 : list tk) (p : spar) (ps : spars) (w3 : list tk) (rp : tk)
     | SsIf (k : tk) (w1 : list tk) (c : sp) (w2 : list tk) (th : tk) (w3 : list tk) (b : sob) (eis : seis) (el : sels)
@@ -101,7 +109,7 @@ Section G.
 
   Fixpoint flat_s (s : ss) : list tk :=
     match s with
-    | SsAssign v w1 a w2 e => v :: w1 ++ a :: w2 ++ flat e
+    | SsAssign v vs w1 a w2 e => v :: flatss vs ++ w1 ++ a :: w2 ++ flat e
     | SsCall0 f w1 lp w2 rp => f :: w1 ++ lp :: w2 ++ [rp]
     | SsCallN f w1 lp w2 p ps w3 rp => f :: w1 ++ lp :: w2 ++ flatp p ++ flatps ps ++ w3 ++ [rp]
     | SsIf k w1 c w2 th w3 b eis el w4 en =>
@@ -133,7 +141,7 @@ Section G.
 
   Fixpoint erase_s (s : ss) : stmt :=
     match s with
-    | SsAssign v _ _ _ e => TAssign (txt v) (erase e)
+    | SsAssign v vs _ _ _ e => TAssign (txt v) (erasess vs) (erase e)
     | SsCall0 f _ _ _ _ => TCall (txt f) []
     | SsCallN f _ _ _ p ps _ _ => TCall (txt f) (erasep p :: eraseps ps)
     | SsIf _ _ c _ _ _ b eis el _ _ => TIf (erase c) (erase_b b) (erase_eis eis) (erase_el el)
@@ -160,7 +168,7 @@ Section G.
 
   Fixpoint size_s (s : ss) : nat :=
     match s with
-    | SsAssign _ _ _ _ e => 2 + size e
+    | SsAssign _ vs _ _ _ e => 2 + sizess vs + size e
     | SsCall0 _ _ _ _ _ => 2
     | SsCallN _ _ _ _ p ps _ _ => 2 + sizep p + sizeps ps
     | SsIf _ _ c _ _ _ b eis el _ _ => 3 + size c + size_b b + size_eis eis + size_el el
@@ -183,7 +191,7 @@ Section G.
     match e with ENone => 1 | ESome _ _ _ body => 1 + size_l body end.
 
   (* a statement that ends in an expression ending in an identifier: the trivia after it is recorded at the identifier *)
-  Definition sends (s : ss) : bool := match s with SsAssign _ _ _ _ e => ends_name e | _ => false end.
+  Definition sends (s : ss) : bool := match s with SsAssign _ _ _ _ _ e => ends_name e | _ => false end.
   Definition lead_m (m : smore) (w : list tk) : list tk := match m with MNil => w | MCons w1 _ _ _ _ => w1 end.
 
   Definition wf_by (b : sby) : Prop :=
@@ -203,7 +211,7 @@ Section G.
      a `semisep` group can only stand there -- two adjacent ones are one group *)
   Fixpoint wf_s (s : ss) : Prop :=
     match s with
-    | SsAssign v w1 a w2 e => cl v = CId /\ all_triv w1 /\ cl a = CAssign /\ all_triv w2 /\ wf 0 e
+    | SsAssign v vs w1 a w2 e => cl v = CId /\ wfss vs /\ all_triv w1 /\ cl a = CAssign /\ all_triv w2 /\ wf 0 e
     | SsCall0 f w1 lp w2 rp => cl f = CId /\ all_triv w1 /\ cl lp = CLP /\ all_triv w2 /\ cl rp = CRP
     | SsCallN f w1 lp w2 p ps w3 rp =>
         cl f = CId /\ all_triv w1 /\ cl lp = CLP /\ all_triv w2 /\ wfpar p /\ wfpars w3 ps /\ all_triv w3 /\
@@ -295,8 +303,8 @@ Section G.
   (* statement() fails at once on a token that starts no statement *)
   Lemma stmt1_fails pe pl f t r : nonstart (cl t) = true -> stmt1 pe pl f (t :: r) = Fail.
   Proof.
-    intro H. unfold StParser.stmt1, StParser.assign, StParser.fbcall, StParser.ident.
-    destruct (cl t) as [| |k0| | | | | | |o| | |k| | | |]; cbn in H; try discriminate; try reflexivity.
+    intro H. unfold StParser.stmt1, StParser.assign, StParser.pvariable, StParser.fbcall, StParser.ident.
+    destruct (cl t) as [| |k0| | | | | | | | | |o| | |k| | | |]; cbn in H; try discriminate; try reflexivity.
     destruct k; cbn in H; try discriminate; reflexivity.
   Qed.
 
@@ -332,6 +340,7 @@ Section G.
       unfold StParser.bop_of. destruct (cl t); try discriminate; exact I.
     - intro E. rewrite (Hend E). cbn [app]. split; [apply skip_solid; exact Hs|].
       unfold noafter. destruct (cl t); try discriminate; reflexivity.
+    - apply nosel_at; [exact Hw | exact Hs|]. destruct (cl t); try discriminate; exact I.
   Qed.
 
   Lemma pe0_at w0 e w t r F : all_triv w0 -> wf 0 e -> all_triv w -> (ends_name e = true -> w = []) -> stopc (cl t) = true ->
@@ -427,7 +436,7 @@ Section G.
     | _ => Fail
     end.
   Proof.
-    intro H. unfold StParser.stmt1, StParser.assign, StParser.fbcall, StParser.ident. rewrite H. destruct k; reflexivity.
+    intro H. unfold StParser.stmt1, StParser.assign, StParser.pvariable, StParser.fbcall, StParser.ident. rewrite H. destruct k; reflexivity.
   Qed.
 
   Lemma else_part_skip pl ts :
@@ -471,12 +480,15 @@ Section G.
   Proof.
     apply ss_mutind.
     - (* assignment *)
-      intros v w1 a w2 e (Hv & Hw1 & Ha & Hw2 & He) rest (w & semi & r & -> & Hw & Hsemi & Hsend) F L f HF _ _.
-      cbn [size_s] in HF. cbn [flat_s erase_s app sends] in *.
+      intros v vs w1 a w2 e (Hv & Hvs & Hw1 & Ha & Hw2 & He) rest (w & semi & r & -> & Hw & Hsemi & Hsend) F L f HF _ Hf.
+      cbn [size_s] in HF, Hf. cbn [flat_s erase_s app sends] in *.
       assert (Hsa : solid a) by (unfold StExprProofs.solid; rewrite Ha; discriminate).
-      unfold StParser.stmt1, StParser.assign. rewrite (ident_at tk cl txt v _ Hv).
-      rewrite <- !app_assoc. cbn [app]. rewrite (next_is_at tk cl _ w1 a _ Hw1 Hsa) by (rewrite Ha; reflexivity).
-      rewrite <- !app_assoc.
+      unfold StParser.stmt1, StParser.assign, StParser.pvariable. rewrite (ident_at tk cl txt v _ Hv).
+      replace ((flatss vs ++ w1 ++ a :: w2 ++ flat e) ++ w ++ semi :: r) with (flatss vs ++ w1 ++ a :: w2 ++ flat e ++ w ++ semi :: r)
+        by (repeat (rewrite <- app_assoc; cbn [app]); reflexivity).
+      rewrite (sels_spelled tk cl txt num lvl vs (w1 ++ a :: w2 ++ flat e ++ w ++ semi :: r) [] F f Hvs);
+        [ | apply nosel_at; [exact Hw1 | exact Hsa | rewrite Ha; exact I] | lia | lia].
+      cbn [app]. rewrite (next_is_at tk cl _ w1 a _ Hw1 Hsa) by (rewrite Ha; reflexivity).
       rewrite (pe0_at w2 e w semi r F Hw2 He Hw Hsend) by (try lia; rewrite Hsemi; reflexivity). reflexivity.
     - (* call without parameters *)
       intros f0 w1 lp w2 rp (Hf & Hw1 & Hlp & Hw2 & Hrp) rest (w & semi & r & -> & Hw & Hsemi & _) F L f HF _ Hf'.
@@ -488,10 +500,15 @@ Section G.
       pose proof (proj1 (main tk cl txt num lvl)) as M. destruct (M (SCall0 tk f0 w1 lp w2 rp)) as [_ MB].
       assert (Hprim : prim tk cl txt num (pexpr F) f (flat (SCall0 tk f0 w1 lp w2 rp) ++ w ++ semi :: r) =
                       Ok (XCall (txt f0) [], w ++ semi :: r)).
-      { apply MB; [cbn; tauto | intro E; discriminate E | cbn; lia | cbn; lia]. }
+      { apply MB; [cbn; tauto | intro E; discriminate E | apply nosel_at; [exact Hw | exact Hss | rewrite Hsemi; exact I] | cbn; lia | cbn; lia]. }
       cbn [StExprProofs.flat app StParser.prim] in Hprim. rewrite Hf in Hprim.
-      unfold StParser.stmt1, StParser.assign. rewrite (ident_at tk cl txt f0 _ Hf).
+      unfold StParser.stmt1, StParser.assign, StParser.pvariable. rewrite (ident_at tk cl txt f0 _ Hf).
       rewrite <- !app_assoc in *. cbn [app] in *.
+      (* no selector and no ':=' after the name: not an assignment *)
+      destruct f as [|f']; [lia|].
+      assert (Hsel : forall X, sels_loop (pexpr F) (S f') [] (w1 ++ lp :: X) = Ok ([], w1 ++ lp :: X)).
+      { intro X. cbn [StParser.sels_loop]. rewrite (skip_app_triv tk cl w1 _ Hw1), (skip_solid tk cl lp _ Hsl), Hlp. reflexivity. }
+      rewrite Hsel.
       rewrite (next_is_not tk cl _ w1 lp _ Hw1 Hsl) by (rewrite Hlp; reflexivity).
       rewrite Hf. unfold StParser.fbcall. rewrite (ident_at tk cl txt f0 _ Hf).
       repeat (rewrite <- app_assoc; cbn [app]). repeat (rewrite <- app_assoc in Hprim; cbn [app] in Hprim).
@@ -502,15 +519,20 @@ Section G.
       intros f0 w1 lp w2 p ps w3 rp Hwf rest (w & semi & r & -> & Hw & Hsemi & _) F L f HF _ Hf. cbn [size_s] in HF, Hf.
       pose proof Hwf as (Hf0 & Hw1 & Hlp & _).
       assert (Hsl : solid lp) by (unfold StExprProofs.solid; rewrite Hlp; discriminate).
+      assert (Hss : solid semi) by (unfold StExprProofs.solid; rewrite Hsemi; discriminate).
       pose proof (proj1 (main tk cl txt num lvl)) as M. destruct (M (SCallN tk f0 w1 lp w2 p ps w3 rp)) as [_ MB].
       assert (Hprim : prim tk cl txt num (pexpr F) f (flat (SCallN tk f0 w1 lp w2 p ps w3 rp) ++ w ++ semi :: r) =
                       Ok (XCall (txt f0) (erasep p :: eraseps ps), w ++ semi :: r)).
       { assert (Esz : size (SCallN tk f0 w1 lp w2 p ps w3 rp) = 2 + sizep p + sizeps ps) by reflexivity.
-        apply MB; [exact Hwf | intro E; discriminate E | rewrite Esz; lia | rewrite Esz; lia]. }
+        apply MB; [exact Hwf | intro E; discriminate E | apply nosel_at; [exact Hw | exact Hss | rewrite Hsemi; exact I] | rewrite Esz; lia | rewrite Esz; lia]. }
       assert (Efl : flat (SCallN tk f0 w1 lp w2 p ps w3 rp) = f0 :: w1 ++ lp :: w2 ++ flatp p ++ flatps ps ++ w3 ++ [rp]) by reflexivity.
       rewrite Efl in Hprim. cbn [app StParser.prim] in Hprim. rewrite Hf0 in Hprim.
-      cbn [flat_s erase_s app]. unfold StParser.stmt1, StParser.assign. rewrite (ident_at tk cl txt f0 _ Hf0).
+      cbn [flat_s erase_s app]. unfold StParser.stmt1, StParser.assign, StParser.pvariable. rewrite (ident_at tk cl txt f0 _ Hf0).
       rewrite <- !app_assoc in *. cbn [app] in *.
+      destruct f as [|f']; [lia|].
+      assert (Hsel : forall X, sels_loop (pexpr F) (S f') [] (w1 ++ lp :: X) = Ok ([], w1 ++ lp :: X)).
+      { intro X. cbn [StParser.sels_loop]. rewrite (skip_app_triv tk cl w1 _ Hw1), (skip_solid tk cl lp _ Hsl), Hlp. reflexivity. }
+      rewrite Hsel.
       rewrite (next_is_not tk cl _ w1 lp _ Hw1 Hsl) by (rewrite Hlp; reflexivity).
       rewrite Hf0. unfold StParser.fbcall. rewrite (ident_at tk cl txt f0 _ Hf0).
       repeat (rewrite <- app_assoc; cbn [app]). repeat (rewrite <- app_assoc in Hprim; cbn [app] in Hprim).
@@ -791,13 +813,14 @@ Section G.
     (forall e, size_eis e <= 3 * length (flat_eis e) + 1) /\
     (forall e, size_el e <= 3 * length (flat_el e) + 1).
   Proof.
-    destruct (size_bound tk) as (Be & Bp & Bps).
+    destruct (size_bound tk) as (Be & Bp & Bps & Bss & _).
     apply ss_mutind; intros; cbn [size_s size_l size_g size_m size_b size_eis size_el flat_s flat_l flat_g flat_m flat_b flat_eis flat_el];
       repeat (rewrite app_length || cbn [length]);
       repeat match goal with
              | |- context [size ?e] => pose proof (Be e); generalize dependent (size e); intros
              | |- context [sizep ?e] => pose proof (Bp e); generalize dependent (sizep e); intros
              | |- context [sizeps ?e] => pose proof (Bps e); generalize dependent (sizeps e); intros
+             | |- context [sizess ?e] => pose proof (Bss e); generalize dependent (sizess e); intros
              end; try lia.
     (* FOR: the optional BY part *)
     destruct st as [|bk bw1 be bw2]; cbn [size_by flat_by]; repeat (rewrite app_length || cbn [length]).
@@ -822,13 +845,13 @@ Section G.
     (forall m, forall w, wf_m w m -> scoped (flat_m m)) /\ (forall b, wf_b b -> scoped (flat_b b)) /\
     (forall e, forall wt, wf_eis wt e -> scoped (flat_eis e)) /\ (forall e, forall w4, wf_el w4 e -> scoped (flat_el e)).
   Proof.
-    destruct (wf_scoped tk cl lvl) as (Se & Sp & Sps).
+    destruct (wf_scoped tk cl lvl) as (Se & Sp & Sps & Sss & _).
     assert (SE : forall e, wf 0 e -> scoped (flat e)) by (intros e H; apply (proj1 (Se e) 0 H)).
     apply ss_mutind with (P := fun s => wf_s s -> scoped (flat_s s)) (P0 := fun l => forall pe, wf_l pe l -> scoped (flat_l l))
       (P1 := fun g => forall pe, wf_g pe g -> scoped (flat_g g))
       (P2 := fun m => forall w, wf_m w m -> scoped (flat_m m)) (P3 := fun b => wf_b b -> scoped (flat_b b))
       (P4 := fun e => forall wt, wf_eis wt e -> scoped (flat_eis e)) (P5 := fun e => forall w4, wf_el w4 e -> scoped (flat_el e)).
-    - intros v w1 a w2 e (H1 & H2 & H3 & H4 & H5). cbn [flat_s]. pose proof (SE e H5). sc.
+    - intros v vs w1 a w2 e (H1 & Hvs & H2 & H3 & H4 & H5). cbn [flat_s]. pose proof (SE e H5). pose proof (Sss vs Hvs). sc.
     - intros f w1 lp w2 rp (H1 & H2 & H3 & H4 & H5). cbn [flat_s]. sc.
     - intros f w1 lp w2 p ps w3 rp (H1 & H2 & H3 & H4 & H5 & H6 & H7 & H8 & _). cbn [flat_s].
       pose proof (Sp p H5). pose proof (Sps ps w3 H6). sc.
